@@ -1,6 +1,7 @@
 """C16 — importing LEF into the raw model keeps every coordinate in place (E1 Rule A, unit tags, E7 guards, E4 table)."""
 import re
 from analysis import flow, ordering as od
+from analysis.nondet import root_local
 from analysis.mir import Body, callee_name, callee_id, op_const, op_place
 from rules.flowrules import select, check_flows
 from rules.gdsrules import get_flow
@@ -116,10 +117,41 @@ def run(ctx):
             r = od.reach(b, nonzero_t, removed=removed)
             if not (r & okb):
                 good = True
+        # the value whose fraction is tested must be the exact product: a rounding step before the test makes the test vacuous
+        ROUNDING = re.compile(r"Decimal::(rescale|round|round_dp|round_dp_with_strategy|round_sf|round_sf_with_strategy|trunc|trunc_with_scale|floor|ceil|set_scale|normalize_assign)$|::(round|trunc|floor|ceil)$")
+        rounded = None
+        for gb in guards:
+            t = b.term(gb)
+            fr = None
+            if t["args"]:
+                dd0 = b.single_def(root_local(b, t["args"][0]))
+                fr = dd0[3] if dd0 and dd0[2] == "call" else None
+            if fr is None or not re.search(r"Decimal::fract$", callee_name(fr) or "") or not fr["args"]:
+                continue
+            fract_bb = [bi for bi, u in b.calls() if u is fr][0]
+            x = root_local(b, fr["args"][0])
+            # (1) produced by a rounding call
+            for dd in b.defs.get(x, []):
+                if dd[2] == "call" and ROUNDING.search(callee_name(dd[3]) or ""):
+                    rounded = (dd[0], callee_name(dd[3]))
+            # (2) rounded in place before the test
+            for bi, u in b.calls():
+                if ROUNDING.search(callee_name(u) or "") and u["args"] and root_local(b, u["args"][0]) == x and fract_bb in od.reach(b, bi):
+                    rounded = (bi, callee_name(u))
+        if rounded:
+            ctx.violation("R16.3", f.short + "/rounded-before-test", "%s rounds the scaled value with %s before testing its fractional part: the test can never fail, so an off-grid coordinate is silently rounded instead of reported" % (f.short, rounded[1].split("::")[-1]), b.site(rounded[0]), f.short + "/rounded-before-test")
+        elif good:
+            ctx.ok("R16.3", f.short + "/rounded-before-test", "fraction test sees the exact product")
         if good:
             ctx.ok("R16.3", f.short, "non-zero fraction can only leave through an error")
         else:
             ctx.violation("R16.3", f.short, "%s can return Ok for a value with a fractional part in raw units (no dominating fract().is_zero() guard that forces an error)" % f.short, "%s:%d" % (f.sp[0], f.sp[1]))
+
+    # ---- R16.4m repeated layers / ports are merged, not overwritten
+    from rules import mergerules as mr
+    folding = select(F, PFX, [IMP, r"^&lef21::LefMacro$"], r"Result<.*Abstract,") + select(F, PFX, [IMP, r"^&lef21::LefPin$"], r"Result<.*AbstractPort,")
+    mr.rule_no_lossy_map_merge(ctx, "R16.4m", folding, floor=2, what="LEF text (several OBS / PORT / LAYER statements on one layer)")
+    mr.rule_no_overwrite_in_loop(ctx, "R16.4o", [PFX], floor=1)
 
     # ---- R16.4 every geometry imported or error
     for f in select(F, PFX, [IMP, r"^&lef21::LefLayerGeometries$"], r"Result<\(.*LayerKey, .*Vec<.*Shape>\),"):
